@@ -718,16 +718,21 @@ class Server(utils.EventEmitter):
         pdu_space_available = bearer.att_mtu - 2
         attributes = []
         response: att.ATT_PDU
-        async for attribute in (
+        for attribute in (
             attribute
             for attribute in self.attributes
             if attribute.handle >= request.starting_handle
             and attribute.handle <= request.ending_handle
             and attribute.type == request.attribute_type
-            and (await attribute.read_value(bearer)) == request.attribute_value
             and pdu_space_available >= 4
         ):
-            # TODO: check permissions
+            # Only attributes that the client is allowed to read can be matched
+            try:
+                attribute_value = await attribute.read_value(bearer)
+            except att.ATT_Error:
+                continue
+            if attribute_value != request.attribute_value:
+                continue
 
             # Add the attribute to the list
             attributes.append(attribute)
@@ -949,9 +954,22 @@ class Server(utils.EventEmitter):
             and attribute.handle <= request.ending_handle
             and pdu_space_available
         ):
-            # No need to catch permission errors here, since these attributes
-            # must all be world-readable
-            attribute_value = await attribute.read_value(bearer)
+            try:
+                attribute_value = await attribute.read_value(bearer)
+            except att.ATT_Error as error:
+                # If the first attribute is unreadable, return an error
+                # Otherwise return attributes up to this point
+                if not attributes:
+                    self.send_response(
+                        bearer,
+                        att.ATT_Error_Response(
+                            request_opcode_in_error=request.op_code,
+                            attribute_handle_in_error=attribute.handle,
+                            error_code=error.error_code,
+                        ),
+                    )
+                    return
+                break
             # Check the attribute value size
             max_attribute_size = min(bearer.att_mtu - 6, 251)
             if len(attribute_value) > max_attribute_size:
@@ -1011,9 +1029,18 @@ class Server(utils.EventEmitter):
                 )
                 self.send_response(bearer, response)
                 return
-            # No need to catch permission errors here, since these attributes
-            # must all be world-readable
-            attribute_value = await attribute.read_value(bearer)
+            try:
+                attribute_value = await attribute.read_value(bearer)
+            except att.ATT_Error as error:
+                self.send_response(
+                    bearer,
+                    att.ATT_Error_Response(
+                        request_opcode_in_error=request.op_code,
+                        attribute_handle_in_error=handle,
+                        error_code=error.error_code,
+                    ),
+                )
+                return
             # Check the attribute value size
             max_attribute_size = min(bearer.att_mtu - 1, 251)
             if len(attribute_value) > max_attribute_size:
@@ -1053,9 +1080,18 @@ class Server(utils.EventEmitter):
                 )
                 self.send_response(bearer, response)
                 return
-            # No need to catch permission errors here, since these attributes
-            # must all be world-readable
-            attribute_value = await attribute.read_value(bearer)
+            try:
+                attribute_value = await attribute.read_value(bearer)
+            except att.ATT_Error as error:
+                self.send_response(
+                    bearer,
+                    att.ATT_Error_Response(
+                        request_opcode_in_error=request.op_code,
+                        attribute_handle_in_error=handle,
+                        error_code=error.error_code,
+                    ),
+                )
+                return
             length = len(attribute_value)
             # Check the attribute value size
             max_attribute_size = min(bearer.att_mtu - 3, 251)
